@@ -106,18 +106,18 @@ type Sched struct {
 	chans    [maxObjs]chanState
 	nchans   int32
 
-	prefix  []int32
-	trace   [maxTrace]Point
-	ntrace  int32
-	futex   bool
-	failed  int32 // 1 deadlock, 2 horizon, 3 replay divergence
-	failMsg string
-	done    chan struct{} // closed (by the last thread) when every thread has finished
-	doneW   int32
-	wg      sync.WaitGroup
-	log     [512]string
-	nlog    int32
-	aborted int32
+	prefix   []int32
+	trace    [maxTrace]Point
+	ntrace   int32
+	futex    bool
+	failed   int32 // 1 deadlock, 2 horizon, 3 replay divergence
+	failMsg  string
+	done     chan struct{} // closed (by the last thread) when every thread has finished
+	doneW    int32
+	wg       sync.WaitGroup
+	log      [512]string
+	nlog     int32
+	aborted  int32
 	maxSteps int32
 }
 
